@@ -42,10 +42,12 @@ static struct cmb_process *P, *Q, *W;          /* caller, another process, a thi
 static _Bool cmv_p_resumed; static int64_t cmv_p_sig; static unsigned cmv_p_nresumes;
 static unsigned cmv_q_nresumes, cmv_w_nresumes; static int64_t cmv_q_sig, cmv_w_sig;
 static double cmv_resume_time;
-static _Bool cmv_in_yield;
+static _Bool cmv_in_yield, cmv_left_suspended;
 static unsigned cmv_nyields;
+struct cmi_hashheap;
+static CMB_THREAD_LOCAL struct cmi_hashheap *event_queue;
+static CMB_THREAD_LOCAL double sim_time;
 
-extern bool cmb_event_execute_next(void);
 extern double cmb_time(void);
 
 void *cmi_coroutine_resume(struct cmi_coroutine *cp, void *arg)
@@ -61,21 +63,57 @@ void *cmi_coroutine_resume(struct cmi_coroutine *cp, void *arg)
     else if (cp == (struct cmi_coroutine *)W) { if (cmv_w_nresumes < 3u) cmv_w_nresumes++; cmv_w_sig = (int64_t)arg; }
     return NULL;
 }
+/* forward declarations of the real wakers (static functions of the included files) */
+static void wakeup_event_time(void *vp, void *arg);
+static void wakeup_event_process(void *vp, void *arg);
+static void wakeup_event_interrupt(void *vp, void *arg);
+static void resume_event(void *vp, void *arg);
+static void wakeup_event_event(void *vp, void *arg);
+static void wakeup_event_resource(void *vp, void *arg);
+static bool heap_order_check(const struct cmi_heap_tag *a, const struct cmi_heap_tag *b);
+static void cmv_env(void);                      /* scenario-specific environment step */
+
 void *cmi_coroutine_yield(void *msg)
 {
     __CPROVER_assert(coroutine_current == (struct cmi_coroutine *)P, "harness: only the calling process yields");
     if (cmv_nyields < 3u) cmv_nyields++;
     cmv_in_yield = 1; cmv_p_resumed = 0;
-    /* the dispatcher: real events in real order until the caller is resumed */
-    for (unsigned i = 0; i < CMV_HH_CAP + 1u && !cmv_p_resumed; i++) {
-        coroutine_current = coroutine_main;
-        if (!cmb_event_execute_next()) break;
+    coroutine_current = coroutine_main;
+    /* (1) the environment acts (other processes, other events), through the real API */
+    cmv_env();
+    /* (2) the dispatcher reaches the FIRST pending event addressed to the caller (first in the real
+     *     event order among the caller's events); events of other subjects that come before it are
+     *     the environment step above.  The real execute_next is emulated for that one event: it is
+     *     taken out of the queue into slot 0, the clock advances to its time, its REAL action runs
+     *     (called directly: no function-pointer fan-out). */
+    struct cmi_hashheap *hp = event_queue;
+    uint64_t k = 0u;
+    for (uint64_t c = CMV_HH_CAP; c >= 1u; c--)
+        if (c <= hp->heap_count && hp->heap[c].item[1] == (void *)P && (k == 0u || heap_order_check(&hp->heap[c], cmv_hh_at(hp, k)))) k = c;
+    if (k == 0u) {
+        /* nothing pending for the caller: it stays suspended */
+        cmv_left_suspended = 1;
+        coroutine_current = (struct cmi_coroutine *)P; cmv_in_yield = 0;
+        __CPROVER_assume(0);
     }
+    const struct cmi_heap_tag ev = *cmv_hh_at(hp, k);
+    hp->heap[0] = ev;
+    (void)cmi_hashheap_remove(hp, ev.key);
+    hp->heap[0] = ev;
+    __CPROVER_assert(ev.dsortkey >= sim_time, "I-EVT: pending times are never before the clock");
+    sim_time = ev.dsortkey;
+    void *act = ev.item[0];
+    if (act == (void *)wakeup_event_time) wakeup_event_time(ev.item[1], ev.item[2]);
+    else if (act == (void *)wakeup_event_interrupt) wakeup_event_interrupt(ev.item[1], ev.item[2]);
+    else if (act == (void *)resume_event) resume_event(ev.item[1], ev.item[2]);
+    else if (act == (void *)wakeup_event_process) wakeup_event_process(ev.item[1], ev.item[2]);
+    else if (act == (void *)wakeup_event_event) wakeup_event_event(ev.item[1], ev.item[2]);
+    else if (act == (void *)wakeup_event_resource) wakeup_event_resource(ev.item[1], ev.item[2]);
+    else __CPROVER_assert(0, "harness: unknown action addressed to the caller");
     coroutine_current = (struct cmi_coroutine *)P;
     cmv_in_yield = 0;
-    /* a process that is never resumed does not continue: paths end here, the harness checks
-     * separately (cmv_left_suspended) whether that may happen */
-    if (!cmv_p_resumed) { cmv_p_sig = INT64_MIN; }
+    OBT("C04-O4", cmv_p_resumed, "a wake-up action addressed to a suspended, running process resumes it");
+    __CPROVER_assume(cmv_p_resumed);
     return (void *)cmv_p_sig;
 }
 static unsigned cmv_nexit, cmv_nstop; static void *cmv_exit_val;
@@ -181,17 +219,18 @@ static bool has_timer_entry(const struct cmb_process *x, uint64_t h)
 #define TIMER_GONE(k) (!cmb_event_is_scheduled(cmv_timer_h[k]) && !has_timer_entry(P, cmv_timer_h[k]))
 
 #ifdef H_HOLD
+static void cmv_env(void) { if (nondet_bool()) foreign_cause(); }      /* a cause posted while the caller is suspended */
 void h_hold(void)
 {
     setup();
     cmv_ntimers = 0; cmv_ninterrupts = 0; cmv_nuresumes = 0;
-    foreign_cause(); foreign_cause();
+    foreign_cause();
     const double t_call = cmb_time();
     const double d = dur();
     const uint64_t ctr0 = event_queue->item_counter;
     const int64_t sig = cmb_process_hold(d);
     const uint64_t hh = ctr0 + 1u;                      /* the hold's own timer handle */
-    OBT("C04-O1", cmv_p_resumed, "a holding process is never left suspended: its own timer is pending whatever else is in the queue");
+    OBT("C04-O1", cmv_p_resumed && !cmv_left_suspended, "a holding process is never left suspended: its own timer is pending whatever else is in the queue");
     OBT("C04-O1", sig != CMB_PROCESS_SUCCESS || cmb_time() == t_call + d, "hold returning SUCCESS returns at exactly start + d");
     OBT("C04-O1", sig == cmv_p_sig && cmb_time() == cmv_resume_time && cmv_p_nresumes == 1, "hold returns the value of exactly one delivered wake-up, at the time of that wake-up");
     OBT("C04-O1", !cmb_event_is_scheduled(hh) && !has_timer_entry(P, hh), "after hold returns (whatever the signal) its own timer is neither pending nor registered: it cannot fire later");
@@ -207,6 +246,7 @@ void h_hold(void)
 #endif
 
 #ifdef H_TIMERS
+static void cmv_env(void) { }
 void h_timers(void)
 {
     setup();
@@ -234,99 +274,129 @@ void h_timers(void)
 #endif
 
 #ifdef H_WAITPROC
+static int cmv_qend;
+static void cmv_env(void)
+{
+    /* the awaited process ends while the caller is suspended: stopped by a third party (real
+     * cmb_process_stop run from the dispatcher), or not at all */
+    if (cmv_qend == 1 && cmb_process_status(Q) == CMB_PROCESS_RUNNING) cmb_process_stop(Q, (void *)0x5);
+    if (nondet_bool()) foreign_cause();
+}
 void h_waitproc(void)
 {
     setup();
-    cmv_ntimers = 0; cmv_ninterrupts = 0; cmv_nuresumes = 0;
+    cmv_ntimers = 0; cmv_ninterrupts = 0; cmv_nuresumes = 0; cmv_left_suspended = 0;
     foreign_cause();
-    /* the awaited process Q ends (exit or stop by W) at some point, or not at all */
-    const int qend = nondet_int(); ASSUME(qend >= 0 && qend <= 2);
-    if (qend == 2) { Q->core.status = CMI_COROUTINE_FINISHED; }          /* already finished */
+    cmv_qend = nondet_int(); ASSUME(cmv_qend >= 0 && cmv_qend <= 2);
+    if (cmv_qend == 2) { Q->core.status = CMI_COROUTINE_FINISHED; }          /* already finished */
     /* a second waiter on Q, registered before us */
-    if (nondet_bool() && qend != 2) { cmi_process_add_awaitable(W, CMI_PROCESS_AWAITABLE_PROCESS, Q); add_waiter_tag(&Q->waiters, W); }
-    if (qend == 1) {
-        /* Q's end is modelled by an event that runs the real stop (from the dispatcher) */
-        extern void cmv_stop_q(void *, void *);
-        (void)cmb_event_schedule(cmv_stop_q, Q, NULL, later(), nondet_i64());
-    }
+    if (nondet_bool() && cmv_qend != 2) { cmi_process_add_awaitable(W, CMI_PROCESS_AWAITABLE_PROCESS, Q); add_waiter_tag(&Q->waiters, W); }
     const int64_t sig = cmb_process_wait_process(Q);
-    if (qend == 2) OBT("C04-O3", sig == CMB_PROCESS_SUCCESS && cmv_nyields == 0, "waiting for a finished process returns SUCCESS at once");
-    if (cmv_nyields > 0 && cmv_p_resumed) {
+    if (cmv_qend == 2) OBT("C04-O3", sig == CMB_PROCESS_SUCCESS && cmv_nyields == 0, "waiting for a finished process returns SUCCESS at once");
+    if (cmv_nyields > 0) {
         OBT("C04-O3", !in_waiters(Q, P) && count_awaits(P, CMI_PROCESS_AWAITABLE_PROCESS) == 0u,
             "after wait_process returns (whatever the signal) the caller is no longer registered with the awaited process, on either side");
         OBT("C04-O3", sig != CMB_PROCESS_STOPPED || cmb_process_status(Q) == CMB_PROCESS_FINISHED, "STOPPED is only reported for a process that has ended");
         OBT("C04-O3", sig == cmv_p_sig && cmv_p_nresumes == 1, "the return value is the signal of exactly one delivered wake-up");
+        OBT("C04-O3", cmb_event_pattern_count(wakeup_event_process, P, CMB_ANY_OBJECT) == 0u, "no process wake-up for the caller is left pending after the call returned");
     }
-    OBT("C04-O5", !(qend == 1 && cmb_process_status(Q) == CMB_PROCESS_FINISHED && cmv_nyields > 0 && !cmv_p_resumed && cmb_event_queue_is_empty()),
-        "the caller is not left suspended once the awaited process has ended");
     CANARY("process wait_process: end reachable");
+    if (sig == CMB_PROCESS_STOPPED) CANARY("process wait_process: STOPPED reachable");
 }
-void cmv_stop_q(void *s, void *o) { cmb_process_stop(Q, (void *)0x5); }
+/* a waiter of a process that ends is never left suspended: from the state in which the caller
+ * waits for Q (and nothing else is pending for it), Q's end schedules its wake-up */
+void h_waitproc_live(void)
+{
+    setup();
+    cmv_left_suspended = 0; cmv_qend = 1;
+    (void)cmb_process_wait_process(Q);
+    OBT("C04-O5", 0, "unreachable marker (never evaluated when the caller is left suspended)");
+}
 #endif
 
 #ifdef H_WAITEVENT
 static unsigned cmv_nev;
-static void cmv_ev_action(void *s, void *o) { if (cmv_nev < 2u) cmv_nev++; }
 static uint64_t cmv_target;
-static void cmv_cancel_target(void *s, void *o) { (void)cmb_event_cancel(cmv_target); }
+static int cmv_fate;          /* 0: nothing happens to the awaited event yet, 1: it executes, 2: it is cancelled */
+static void cmv_env(void)
+{
+    if (cmv_fate == 1 && cmb_event_is_scheduled(cmv_target)) {
+        /* the dispatcher executes the awaited event: exactly what cmb_event_execute_next does for it */
+        const struct event_peek tmp = *(struct event_peek *)cmi_hashheap_item(event_queue, cmv_target);
+        const double t = cmb_event_time(cmv_target);
+        struct cmi_slist_head w = tmp.waiters;
+        (void)cmi_hashheap_remove(event_queue, cmv_target);
+        sim_time = t;
+        if (!cmi_slist_is_empty(&w)) wake_event_waiters(&w, CMB_PROCESS_SUCCESS);
+        if (cmv_nev < 2u) cmv_nev++;
+    } else if (cmv_fate == 2) {
+        (void)cmb_event_cancel(cmv_target);
+    }
+    if (nondet_bool()) foreign_cause();
+}
+static void cmv_ev_action(void *s, void *o) { }
 void h_waitevent(void)
 {
     setup();
-    cmv_ntimers = 0; cmv_ninterrupts = 0; cmv_nuresumes = 0; cmv_nev = 0;
+    cmv_ntimers = 0; cmv_ninterrupts = 0; cmv_nuresumes = 0; cmv_nev = 0; cmv_left_suspended = 0;
     foreign_cause();
-    cmv_target = cmb_event_schedule(cmv_ev_action, NULL, NULL, later(), nondet_i64());
-    if (nondet_bool()) (void)cmb_event_schedule(cmv_cancel_target, NULL, NULL, later(), nondet_i64());     /* somebody cancels the awaited event */
+    /* the awaited event is the earliest thing in the queue when it executes (cmv_fate == 1) */
+    cmv_fate = nondet_int(); ASSUME(cmv_fate >= 0 && cmv_fate <= 2);
+    cmv_target = cmb_event_schedule(cmv_ev_action, NULL, NULL, cmv_fate == 1 ? cmb_time() : later(), nondet_i64());
     const int64_t sig = cmb_process_wait_event(cmv_target);
-    if (cmv_p_resumed) {
-        OBT("C04-O3", count_awaits(P, CMI_PROCESS_AWAITABLE_EVENT) == 0u, "after wait_event returns (whatever the signal) the caller has no EVENT registration left");
-        OBT("C04-O3", !cmb_event_is_scheduled(cmv_target) || cmb_event_pattern_count(CMB_ANY_ACTION, CMB_ANY_SUBJECT, CMB_ANY_OBJECT) >= 1u, "harness sanity");
-        if (cmb_event_is_scheduled(cmv_target)) {
-            const struct event_peek *ep = (struct event_peek *)cmi_hashheap_item(event_queue, cmv_target);
-            OBT("C04-O3", ep->waiters.next == NULL, "after wait_event returns early the caller is no longer in the waiter list of the (still pending) event");
-        }
-        OBT("C04-O3", sig != CMB_PROCESS_SUCCESS || cmv_nev == 1, "SUCCESS is only reported when the awaited event has executed");
-        OBT("C04-O3", sig == cmv_p_sig && cmv_p_nresumes == 1, "the return value is the signal of exactly one delivered wake-up");
+    OBT("C04-O3", count_awaits(P, CMI_PROCESS_AWAITABLE_EVENT) == 0u, "after wait_event returns (whatever the signal) the caller has no EVENT registration left");
+    if (cmb_event_is_scheduled(cmv_target)) {
+        const struct event_peek *ep = (struct event_peek *)cmi_hashheap_item(event_queue, cmv_target);
+        OBT("C04-O3", ep->waiters.next == NULL, "after wait_event returns early the caller is no longer in the waiter list of the (still pending) event");
     }
-    OBT("C04-O5", cmv_p_resumed || cmb_event_is_scheduled(cmv_target), "the caller is not left suspended once the awaited event has executed or been cancelled");
+    OBT("C04-O3", sig != CMB_PROCESS_SUCCESS || cmv_nev == 1, "SUCCESS is only reported when the awaited event has executed");
+    OBT("C04-O3", sig != CMB_PROCESS_CANCELLED || !cmb_event_is_scheduled(cmv_target), "CANCELLED is only reported when the awaited event was cancelled");
+    OBT("C04-O3", sig == cmv_p_sig && cmv_p_nresumes == 1, "the return value is the signal of exactly one delivered wake-up");
+    OBT("C04-O3", cmb_event_pattern_count(wakeup_event_event, P, CMB_ANY_OBJECT) == 0u, "no event wake-up for the caller is left pending after the call returned");
     CANARY("process wait_event: end reachable");
+    if (sig == CMB_PROCESS_SUCCESS) CANARY("process wait_event: SUCCESS reachable");
 }
 #endif
 
 #ifdef H_GUARDWAIT
+static _Bool cmv_will_signal; static unsigned cmv_nsignals;
+static void cmv_env(void)
+{
+    /* the guard is signalled (a release / put / get by somebody else) with the demand then true or false */
+    if (cmv_will_signal) { cmv_demand_now = nondet_bool(); (void)cmb_resourceguard_signal(G1); if (cmv_nsignals < 2u) cmv_nsignals++; }
+    if (nondet_bool()) foreign_cause();
+}
 void h_guardwait(void)
 {
     setup();
-    cmv_ntimers = 0; cmv_ninterrupts = 0; cmv_nuresumes = 0;
+    cmv_ntimers = 0; cmv_ninterrupts = 0; cmv_nuresumes = 0; cmv_left_suspended = 0; cmv_nsignals = 0;
     foreign_cause();
-    /* another process may already be queued at the guard (in front of or behind the caller) */
+    /* another process may already be queued at the guard */
     const bool other = nondet_bool();
     if (other) {
         (void)cmi_hashheap_enqueue(&G1->priority_queue, W, (void *)cmv_demand, NULL, NULL, (uint64_t)W, cmb_time(), W->priority);
         cmi_process_add_awaitable(W, CMI_PROCESS_AWAITABLE_RESOURCE, G1);
     }
-    /* the guard is signalled at some later point (a release), with the demand then true or false */
-    extern void cmv_signal_g1(void *, void *);
-    const bool will_signal = nondet_bool();
-    if (will_signal) (void)cmb_event_schedule(cmv_signal_g1, NULL, NULL, later(), nondet_i64());
-    cmv_demand_now = nondet_bool();
+    cmv_will_signal = nondet_bool();
     const int64_t sig = cmb_resourceguard_wait(G1, cmv_demand, NULL);
-    if (cmv_p_resumed) {
-        OBT("C04-O3", !cmi_hashheap_is_enqueued(&G1->priority_queue, (uint64_t)P) && count_awaits(P, CMI_PROCESS_AWAITABLE_RESOURCE) == 0u,
-            "after the guard wait returns (whatever the signal) the caller is neither queued at the guard nor registered as waiting for it");
-        OBT("C04-O3", cmb_event_pattern_count(wakeup_event_resource, P, CMB_ANY_OBJECT) == 0u,
-            "after the guard wait returns no grant or cancellation for the caller is left pending: a grant that arrives too late cannot resume it");
-        OBT("C04-O3", sig == cmv_p_sig && cmv_p_nresumes == 1, "the return value is the signal of exactly one delivered wake-up");
-        /* C08-O3: a grant made to a waiter that leaves for another reason is passed on */
-        if (sig != CMB_PROCESS_SUCCESS && other && cmv_demand_now)
-            OBT("C08-O3", !cmi_hashheap_is_enqueued(&G1->priority_queue, (uint64_t)W) || !will_signal || cmb_event_pattern_count(cmv_signal_g1, CMB_ANY_SUBJECT, CMB_ANY_OBJECT) == 1u,
-                "if the guard was signalled with a satisfiable demand and the caller left for another reason, the next waiter has been granted (no lost wake-up)");
-    }
+    OBT("C04-O3", !cmi_hashheap_is_enqueued(&G1->priority_queue, (uint64_t)P) && count_awaits(P, CMI_PROCESS_AWAITABLE_RESOURCE) == 0u,
+        "after the guard wait returns (whatever the signal) the caller is neither queued at the guard nor registered as waiting for it");
+    OBT("C04-O3", cmb_event_pattern_count(wakeup_event_resource, P, CMB_ANY_OBJECT) == 0u,
+        "after the guard wait returns no grant or cancellation for the caller is left pending: a grant that arrives too late cannot resume it");
+    OBT("C04-O3", sig == cmv_p_sig && cmv_p_nresumes == 1, "the return value is the signal of exactly one delivered wake-up");
+    /* C08-O3: a grant made to a waiter that leaves for another reason is passed on.  The caller was
+     * granted iff the signal found it at the front with a true demand and dequeued it. */
+    const bool w_served = !cmi_hashheap_is_enqueued(&G1->priority_queue, (uint64_t)W);
+    if (sig != CMB_PROCESS_SUCCESS && other && cmv_nsignals == 1 && cmv_demand_now)
+        OBT("C08-O3", w_served && cmb_event_pattern_count(wakeup_event_resource, W, (void *)CMB_PROCESS_SUCCESS) == 1u,
+            "the guard was signalled with a satisfiable demand and the caller left its wait for another reason in that instant: the grant went (or was passed on) to the next waiter");
     CANARY("guard wait: end reachable");
+    if (sig != CMB_PROCESS_SUCCESS && cmv_nsignals == 1 && cmv_demand_now && other) CANARY("guard wait: granted-then-left reachable");
 }
-void cmv_signal_g1(void *s, void *o) { (void)cmb_resourceguard_signal(G1); }
 #endif
 
 #ifdef H_GUARDSIGNAL
+static void cmv_env(void) { }
 /* cmb_resourceguard_signal / _cancel / _remove: C06-O2, C13-O3 */
 static struct cmb_resourceguard *G2;
 void h_guardsignal(void)
@@ -375,6 +445,7 @@ void h_guardsignal(void)
 #endif
 
 #ifdef H_PRIOSET
+static void cmv_env(void) { }
 /* cmb_process_priority_set: C06-O3 */
 static unsigned cmv_nreprio; static int64_t cmv_reprio_pri; static const struct cmb_process *cmv_reprio_p;
 static void cmv_reprio(struct cmi_holdable *h, const struct cmb_process *pp, int64_t pri) { if (cmv_nreprio < 3u) cmv_nreprio++; cmv_reprio_pri = pri; cmv_reprio_p = pp; }
@@ -407,6 +478,7 @@ void h_prioset(void)
 #endif
 
 #ifdef H_END
+static void cmv_env(void) { }
 /* C09: exit / stop-by-other / stop-self */
 static unsigned cmv_ndrop; static const struct cmb_process *cmv_drop_p;
 static void cmv_drop2(struct cmi_holdable *h, const struct cmb_process *pp) { if (cmv_ndrop < 3u) cmv_ndrop++; cmv_drop_p = pp; }
